@@ -1,9 +1,10 @@
 use crate::outcome::PropDef;
 
+pub mod c01;
 pub mod c15;
 
 pub fn all() -> Vec<&'static PropDef> {
-    vec![&c15::PROP]
+    vec![&c01::PROP, &c15::PROP]
 }
 
 pub fn find(id: &str) -> Option<&'static PropDef> {
